@@ -15,3 +15,25 @@ package dao
 //@ ensures[fresh] result != nil && fresh(result) && result.private && result.nativeCachePS == dao
 //@ ensures[store] result.Store != nil && fresh(result.Store) && result.Store.private && result.Store.ps == storage.Store(dao.Store) && len(result.Store.MemoryStore.mem) == 0 && len(result.Store.MemoryStore.stor) == 0
 //@ ensures[cache] result.nativeCache != nil && fresh(result.nativeCache) && len(result.nativeCache) == 0
+
+//@ prop C07
+//@ pkg-invariant ErrHasConflicts != nil && ErrAlreadyExists != nil
+// On-chain conflict lookup: a transaction is declared free of on-chain conflicts either
+// straight after the first lookup (no record, a block, an outdated record) or after the
+// conflict record of every one of its signers has been looked up - never after some of them.
+//@ func isTraceableBlock
+//@ may-panic
+
+// Key buffer of a private layer is reused between calls: the key written is 33 bytes long.
+//@ func (*Simple).makeExecutableKey
+//@ assumed
+//@ requires[nopanic] dao != nil
+//@ modifies dao.keyBuf, elems(uint8)
+//@ ensures len(result) == 33
+
+//@ func (*Simple).HasTransaction
+//@ may-panic
+//@ opt frame off
+//@ requires[nopanic] dao != nil
+//@ ensures[allsigners] result == nil ==> ncalls(Get) == 1 || ncalls(Get) == 1 + len(signers)
+//@ loop 0 invariant[count] ncalls(Get) == 1 + $i && len($range) == len(signers) && $i <= len(signers)
